@@ -18,6 +18,7 @@ type c16Page struct {
 	id       int
 	mediaBox pdf.Object
 	rotate   pdf.Object
+	crop     pdf.Object // nil: the page has no /CropBox
 	res      pdf.Object
 	cb       *int // position reported by NextPageNumber, if a callback was registered
 }
@@ -54,6 +55,7 @@ func c16Run(t *testing.T, seed int64, steps int, maxDepth int) {
 	nextID := 0
 	boxes := []pdf.Object{pdf.Array{pdf.Integer(0), pdf.Integer(0), pdf.Integer(100), pdf.Integer(200)}, pdf.Array{pdf.Integer(0), pdf.Integer(0), pdf.Integer(595), pdf.Integer(842)}}
 	rots := []pdf.Object{nil, pdf.Integer(0), pdf.Integer(90), pdf.Integer(270)}
+	crops := []pdf.Object{nil, pdf.Array{pdf.Integer(10), pdf.Integer(10), pdf.Integer(90), pdf.Integer(90)}, pdf.Array{pdf.Integer(10), pdf.Integer(10), pdf.Integer(90), pdf.Integer(90)}, pdf.Array{pdf.Integer(5), pdf.Integer(5), pdf.Integer(50), pdf.Integer(50)}}
 	ress := []pdf.Object{pdf.Dict{}, pdf.Dict{"Font": pdf.Dict{"F": pdf.Name("x")}}, pdf.Dict{"ProcSet": pdf.Array{pdf.Name("PDF")}}}
 	desc := fmt.Sprintf("seed=%d steps=%d", seed, steps)
 	var pendingCb []**int
@@ -64,11 +66,17 @@ func c16Run(t *testing.T, seed int64, steps int, maxDepth int) {
 			// runs of identical attributes make inheritance hoisting likely
 			k := 1 + rng.Intn(20)
 			mb, ro, re := boxes[rng.Intn(len(boxes))], rots[rng.Intn(len(rots))], ress[rng.Intn(len(ress))]
+			cr := crops[rng.Intn(len(crops))]
 			for i := 0; i < k; i++ {
 				if rng.Intn(8) == 0 {
 					mb, ro, re = boxes[rng.Intn(len(boxes))], rots[rng.Intn(len(rots))], ress[rng.Intn(len(ress))]
 				}
-				p := &c16Page{id: nextID, mediaBox: mb, rotate: ro, res: re}
+				pcr := cr
+				if rng.Intn(12) == 0 {
+					// a single page inside a run that differs only in having no (or another) crop box
+					pcr = crops[rng.Intn(len(crops))]
+				}
+				p := &c16Page{id: nextID, mediaBox: mb, rotate: ro, crop: pcr, res: re}
 				nextID++
 				if rng.Intn(5) == 0 {
 					pos := -2
@@ -78,6 +86,9 @@ func c16Run(t *testing.T, seed int64, steps int, maxDepth int) {
 				d := pdf.Dict{"Type": pdf.Name("Page"), "ID": pdf.Integer(p.id), "MediaBox": mb, "Resources": re}
 				if ro != nil {
 					d["Rotate"] = ro
+				}
+				if pcr != nil {
+					d["CropBox"] = pcr
 				}
 				if err := tgt.w.AppendPageDict(out.Alloc(), d); err != nil {
 					t.Errorf("B2-FAIL append %s: %v", desc, err)
@@ -135,7 +146,7 @@ func c16Run(t *testing.T, seed int64, steps int, maxDepth int) {
 		return
 	}
 	// independent walk of the tree
-	type eff struct{ mb, rot, res pdf.Object }
+	type eff struct{ mb, rot, crop, res pdf.Object }
 	var got []int
 	var gotEff []eff
 	var walk func(ref pdf.Reference, parent pdf.Reference, inh eff, depth int) (int, error)
@@ -160,6 +171,9 @@ func c16Run(t *testing.T, seed int64, steps int, maxDepth int) {
 		}
 		if v, ok := d["Rotate"]; ok {
 			inh.rot = v
+		}
+		if v, ok := d["CropBox"]; ok {
+			inh.crop = v
 		}
 		if v, ok := d["Resources"]; ok {
 			inh.res = v
@@ -215,6 +229,10 @@ func c16Run(t *testing.T, seed int64, steps int, maxDepth int) {
 		if gotRot == nil {
 			gotRot = pdf.Integer(0)
 		}
+		if !pdf.Equal(gotEff[i].crop, p.crop) {
+			t.Errorf("B2-FAIL inherited-attributes %s: page %d at position %d: effective CropBox %v, given %v", desc, p.id, i, pdf.AsString(gotEff[i].crop), pdf.AsString(p.crop))
+			return
+		}
 		if !pdf.Equal(gotEff[i].mb, p.mediaBox) || !pdf.Equal(gotRot, wantRot) || !pdf.Equal(gotEff[i].res, p.res) {
 			t.Errorf("B2-FAIL inherited-attributes %s: page %d at position %d: MediaBox %v Rotate %v Resources %v, given %v %v %v", desc, p.id, i,
 				pdf.AsString(gotEff[i].mb), gotRot, pdf.AsString(gotEff[i].res), pdf.AsString(p.mediaBox), wantRot, pdf.AsString(p.res))
@@ -246,7 +264,51 @@ func TestB2C16PageTree(t *testing.T) {
 	for _, n := range []int{1, 15, 16, 17, 255, 256, 257} {
 		c16Fixed(t, n)
 	}
-	t.Logf("B2-CASES %d", runs+7)
+	// a document whose only page was added as a raw dictionary: to the root or to a range, with or
+	// without a stale /Parent taken over from another document
+	single := 0
+	for _, inRange := range []bool{false, true} {
+		for _, stale := range []bool{false, true} {
+			single++
+			var buf bytes.Buffer
+			out, _ := pdf.NewWriter(&buf, pdf.V1_7, nil)
+			rm := pdf.NewResourceManager(out)
+			w := NewWriter(out, rm)
+			tgt := w
+			if inRange {
+				tgt, _ = w.NewRange()
+			}
+			d := pdf.Dict{"Type": pdf.Name("Page"), "ID": pdf.Integer(7), "MediaBox": pdf.Array{pdf.Integer(0), pdf.Integer(0), pdf.Integer(1), pdf.Integer(1)}}
+			if stale {
+				d["Parent"] = pdf.NewReference(9999, 0)
+			}
+			pageRef := out.Alloc()
+			tgt.AppendPageDict(pageRef, d)
+			ref, err := w.Close()
+			if err != nil {
+				t.Errorf("B2-FAIL close single page range=%v stale=%v: %v", inRange, stale, err)
+				continue
+			}
+			out.GetMeta().Catalog.Pages = ref
+			rm.Close()
+			out.Close()
+			r, err := pdf.NewReader(bytes.NewReader(buf.Bytes()), int64(buf.Len()), nil)
+			if err != nil {
+				t.Errorf("B2-FAIL reopen single page: %v", err)
+				continue
+			}
+			obj, _ := r.Get(pageRef, true)
+			pd, _ := obj.(pdf.Dict)
+			parent, _ := pd["Parent"].(pdf.Reference)
+			po, _ := r.Get(parent, true)
+			pdict, _ := po.(pdf.Dict)
+			kids, _ := pdict["Kids"].(pdf.Array)
+			if parent == 0 || len(kids) != 1 || kids[0] != pdf.Object(pageRef) || pdict["Count"] != pdf.Integer(1) {
+				t.Errorf("B2-FAIL tree-structure single page range=%v stale=%v: page /Parent %v, that node: %v", inRange, stale, pd["Parent"], pdf.AsString(pdict))
+			}
+		}
+	}
+	t.Logf("B2-CASES %d", runs+7+single)
 }
 
 func c16Fixed(t *testing.T, n int) {
